@@ -109,14 +109,14 @@ CLAIMED = {
         ref="DESIGN.md section 4 C17",
     ),
     "C18": dict(
-        technique="abstract interpretation of the cooperative __init__ chain of each gateway class with symbolic option values (argument binding along the MRO, dataflow of each option to its destination attribute); keyword extraction at in-repo call sites (cli, examples, README)",
-        text="Option threading: for each of the six gateway classes the whole constructor chain is interpreted with all documented options at once, with none, and with each option alone (frames treat names independently, so this covers every subset): no TypeError is raised (accepted, never forwarded into a frame that has neither the name nor **kwargs) and every option value reaches its destination attribute unchanged (transport timeout / reconnect timeout / prefixes / retain / callbacks, gateway callback / port / baud / server address, persistence object and file, sanitised protocol version); every in-repo constructor call site passes only accepted keywords; the version tables, the selector and the sanitiser call sites have the expected shape.",
-        note="NOT decided: the version-floor rule itself ('2.0.0 means 2.0', '2.3 means 2.2'): it depends on how AwesomeVersion orders strings with different section counts, which is runtime behaviour of a dependency (observed while reading: '2.0.0' selects the 1.5 tables on this tree; outside what a rule over this repository can bound).",
+        technique="abstract interpretation of the cooperative __init__ chain of each gateway class with symbolic option values (argument binding along the MRO, dataflow of each option to its destination attribute); keyword extraction at in-repo call sites; dataflow of the module path through get_const; disallowed-comparison rule for version ordering",
+        text="Option threading: for each of the six gateway classes the whole constructor chain is interpreted with all documented options at once, with none, and with each option alone (frames treat names independently, so this covers every subset): no TypeError is raised and every option value reaches its destination attribute unchanged (transport timeout / reconnect timeout / prefixes / retain / callbacks, gateway callback / port / baud / server address, persistence object and file, sanitised protocol version); the prefixes and retain are honoured downstream (positional prefix comparison in the topic parser, in_prefix + template subscriptions, out_prefix + topic and retain in publish); every in-repo constructor call site passes only accepted keywords. Version selection: the table module get_const returns is, on every path, the floor-search result for this very version string (or a cache keyed by the parameter itself), the version tables / sanitiser call sites have the expected shape, and version strings are never ordered by raw AwesomeVersion comparison outside the sanitiser - table selection and the 2.0 feature guard use the numeric section comparison helper (this rule found defect D11: '2.0.0' selected the 1.5 tables).",
+        note="Not decided: the numeric outcome of the floor rule for every version string (a value-level statement); the structural clauses above are necessary conditions of it.",
         ref="DESIGN.md section 4 C18",
     ),
     "C20": dict(
         technique="sibling agreement by path analysis: connection_lost / connection_made resolved through the MRO of every protocol class and interpreted for exc None / set; the four connect loops interpreted with every modelled failure class; AST order rules for stop()",
-        text="For every protocol class, every path of connection_lost calls on_conn_lost(gateway, exc) exactly once when set, triggers the reconnect callback exactly once iff exc is truthy and clears the transport; connection_made calls on_conn_made exactly once; in each of the four connect loops every failing attempt (SerialException, timeout, OSError) sleeps transport.reconnect_timeout and retries, success leaves the loop, nothing but cancellation escapes, the threaded loops re-test transport.protocol and the asyncio loops re-raise CancelledError; both stop() methods disconnect first; the asyncio stop cancels the connect task; send tests the connection first.",
+        text="For every protocol class, every path of connection_lost calls on_conn_lost(gateway, exc) exactly once when set, triggers the reconnect callback exactly once iff exc is truthy and clears the transport; connection_made calls on_conn_made exactly once; in each of the four connect loops every failing attempt (SerialException, timeout, OSError) sleeps transport.reconnect_timeout and retries, success leaves the loop, nothing but cancellation escapes, the threaded loops re-test transport.protocol and the asyncio loops re-raise CancelledError; both stop() methods disconnect first; the asyncio stop cancels the connect task; send tests the connection first; the TCP watchdog has the stated structure (drop after last answer + 2 x reconnect_timeout, probe every reconnect_timeout, answers restart the disconnect timer, a new connection restarts both timers, the watchdog's OSError ends the connection in both flavours).",
         note="The two-sided timing guarantee of the TCP watchdog, exactly-once under arbitrary event sequences and a raising user callback on the reader thread are not decided.",
         ref="DESIGN.md section 4 C20",
     ),
